@@ -135,6 +135,7 @@ func runC01(c *Ctx) {
 	runC01Slots(c)
 	runC01AttrFresh(c, "C01")
 	runReadSize(c, "C01")
+	runC01TruncAsked(c, "C01")
 }
 
 func runC02(c *Ctx) {
@@ -144,6 +145,7 @@ func runC02(c *Ctx) {
 	// the node behind a handle is a per-handle cache of the object's type (shared with C05)
 	runC05Atomic(c, "C02")
 	runC02TreeScan(c, "C02")
+	runCacheKeyAgreement(c, "C02")
 }
 
 func runInval(c *Ctx, prop, family string) {
